@@ -277,6 +277,84 @@ def vc_array_update():
 T.group("array_update", vc_array_update, [(T.ARR, "Array._update"), (T.ARR, "Array.__len__"), (T.ARR, "get_shape_from_array"), ("xobjects/typeutils.py", "is_integer")], ["C10", "C11"])
 
 
+# ------------------------------------------------------------------------------------------------ Array.to_nplike / to_nparray
+def vc_array_to_nplike():
+    """Array.to_nplike / Array.to_nparray on a view (only HandleInv known), arrays of numbers, rank 1..3 x every axis order x every
+    static/dynamic mask: the result is the buffer's typed view (contract of the buffer primitive, C13) whose shape is the array's
+    shape, whose element idx -- for every in-range idx -- is the item at the documented address o + D + sum idx_k * stride_k (so the
+    result aliases the items index by index), the requested range lies inside the buffer, and the method's internal assertion
+    (strides of the result == strides of the handle) never fails."""
+    from contracts import capi as K
+    from pyvc.core import State
+
+    ARR = T.ARR
+    obs = []
+    its = []
+    for fname in ("to_nplike", "to_nparray"):
+        for rank, mask in K.array_masks():
+            for order in T.perms(rank):
+                lab = f"{'x'.join('N' if m else 's' for m in mask)}:order{''.join(map(str, order))}"
+                it = T.new_interp()
+                its.append(it)
+                it.class_home.update({"Array": ARR, "NumpyScalar": "xobjects/scalar.py"})
+                i64 = T.int64_scalar()
+                it.extern_names = {"Int64": i64, "object": T.ObjectBuiltin()}
+                XB.install_int64(it, i64)
+                st0 = State()
+                cls = T.array_class(st0, rank, mask, True, order)
+                sp = cls.spec
+                w, D, ndyn = sp["w"], sp["D"], sp["ndyn"]
+                dt = SymObj("dtype", {"itemsize": w})
+                dt.closed = True
+                cls.attrs["_itemtype"].attrs["_dtype"] = dt
+                buf = XB.XBuf("buf")
+                o = fresh_int("offset")
+                hdr_shape = []
+                j = 0
+                for k in range(rank):
+                    if mask[k]:
+                        hdr_shape.append(XB.W8(buf.mem, o + 8 + 8 * j))
+                        j += 1
+                    else:
+                        hdr_shape.append(sp["dims"][k])
+                n_items = T.prod(hdr_shape)
+                dstr = T.doc_strides(hdr_shape, order, w)
+                # HandleInv side conditions: the object (header + items) lies inside the buffer; the header strides are the documented ones
+                pre = list(st0.pc) + [o >= 0, buf.cap >= 0, buf.cap < 2 ** 62, o + D + w * n_items <= buf.cap] + [s_ >= 0 for s_ in hdr_shape]
+                if ndyn and rank > 1:
+                    pre += [XB.W8(buf.mem, o + 8 + 8 * ndyn + 8 * k) == dstr[k] for k in range(rank)]
+                con = T._contract(ARR, "Array._from_buffer", [])
+                try:
+                    for st, out in it.exec_function(con, {"cls": cls, "buffer": buf, "offset": o}, pre=pre):
+                        h = out[1]
+                        it.obligations = []  # HandleInv of the view belongs to group array_handle
+                        it.contract = T._contract(ARR, f"Array.{fname}", [])
+                        for st2, res in it.call_function(st, FuncVal(ARR, f"Array.{fname}", it._relocate(st, h)), [], {}, None):
+                            ob = lambda c, g: it.oblige(st2, "post", f"{c}[{lab}]", g if not isinstance(g, bool) else z3.BoolVal(g))
+                            if res.__class__.__name__ == "_NoReturn":
+                                pr = getattr(st2, "pending_raise", None)
+                                it.oblige(st2, "raises", f"never[{lab}]", False, pr[2] if pr else None)
+                                continue
+                            ok = isinstance(res, XB.TypedViewND)
+                            ob("returns_a_view_of_the_buffer", bool(ok and res.buf.uid == buf.uid))
+                            if not ok:
+                                continue
+                            ob("shape_is_the_array_shape", z3.And(*[a_ == b_ for a_, b_ in zip(res.shape(), hdr_shape)]) if len(res.shape()) == rank else False)
+                            qs = [fresh_int(f"q{k}") for k in range(rank)]
+                            inr = z3.And(*[z3.And(0 <= q, q < s_) for q, s_ in zip(qs, hdr_shape)])
+                            doc = o + D + sum((q * s_ for q, s_ in zip(qs, dstr)), z3.IntVal(0))
+                            ob("element_is_the_item_at_the_documented_address", z3.Implies(inr, res.address(qs) == doc))
+                            ob("items_have_the_item_size", res.w == w)
+                except HARNESS_ERRORS as e:
+                    vc_array_to_nplike.undecided.append((f"{fname}:{lab}", str(e)[:160]))
+                obs += it.obligations
+    vc_array_to_nplike.interps = its
+    return obs
+
+
+T.group("array_to_nplike", vc_array_to_nplike, [(T.ARR, "Array.to_nplike"), (T.ARR, "Array.to_nparray")], ["C01", "C06"])
+
+
 # ------------------------------------------------------------------------------------------------ Array._to_json, one-dimensional (C19)
 def vc_array_to_json():
     """Array._to_json on a one-dimensional, reference-free array seen through a view: the list it returns has one entry per item,
